@@ -76,6 +76,75 @@ class C18(Check):
     def search(self, tier, rng, real, v):
         yield from self.batches("quick", rng, real)
 
+    def extra_violations(self, stats):
+        """an ALIAS class in the pool: a singleton class `L` whose `__new__` forwards to another singleton class `S`
+        (a deprecated name kept for callers). `L` itself is outside the statement (it has no instance of its own);
+        the statement is judged for `S`: one object per clear-period of `S`, its `__init__` run exactly once, with
+        the arguments of the call that created it — however often, and with whatever arguments, `L` is called"""
+        import random as _r
+        from engine import Violation
+        from edgegraph.structure import singleton
+        rng = _r.Random(2718)
+        out, probes = [], 0
+        for _ in range(400):
+            singleton.clear_true_singleton()
+            log, keep = [], []
+
+            class S(metaclass=singleton.TrueSingleton):
+                def __init__(self, *a):
+                    log.append((id(self), a))
+
+            class L(metaclass=singleton.TrueSingleton):
+                def __new__(cls, *a):
+                    return S(*a)
+
+                def __init__(self, *a):            # never runs: `__new__` does not return an instance of L
+                    log.append((id(self), ("L",) + a))
+            cur, first, l_set, hist, msg = None, None, False, [], None
+            for _s in range(rng.randint(2, 10)):
+                r, a = rng.random(), (rng.randrange(100),)
+                if r < 0.3 or (r < 0.6 and l_set):
+                    hist.append("S%r" % (a,))
+                    o = S(*a)
+                    keep.append(o)
+                    if cur is None:
+                        cur, first = o, a
+                    elif o is not cur:
+                        msg = "S returned a different object within one clear-period"
+                elif r < 0.6:
+                    hist.append("L%r" % (a,))
+                    o = L(*a)
+                    keep.append(o)
+                    l_set = True
+                    if cur is None:
+                        cur, first = o, a
+                    elif o is not cur:
+                        msg = "the alias, constructed for the first time since its clear, did not return S's instance"
+                elif r < 0.75:
+                    hist.append("clear(S)")
+                    singleton.clear_true_singleton(S)
+                    cur = None
+                elif r < 0.9:
+                    hist.append("clear(L)")
+                    singleton.clear_true_singleton(L)
+                    l_set = False
+                else:
+                    hist.append("clear()")
+                    singleton.clear_true_singleton()
+                    cur, l_set = None, False
+                probes += 1
+                if msg is None and cur is not None:
+                    inits = [x for (i, x) in log if i == id(cur)]
+                    if inits != [first]:
+                        msg = "__init__ of S's instance ran with %r in this period; the first call's arguments were %r" % (inits, first)
+                if msg:
+                    if len(out) < 3:
+                        out.append(Violation("oracle", "alias class, after [%s]: %s" % ("; ".join(hist), msg), ["sweep:alias class: " + "; ".join(hist)]))
+                    break
+        singleton.clear_true_singleton()
+        stats.extra["alias_class_probes"] = probes
+        return out
+
     # model-free bookkeeping: per class, the instance of the current clear-period and its init count
     def on_reset(self):
         self.book = {}
